@@ -31,6 +31,18 @@ pub fn build(case: &Case) -> (Vec<(String, u16, Shape)>, Vec<Rule>) {
     (spec, rules)
 }
 
+/// the same action built with a unit trace (the entry the explain / impact / test-example analyses use)
+pub fn traced_action_for(case: &Case, rules: &[Rule], rc: &RouterConfig) -> Action {
+    let req = request_for(rc, "/p", case.sampling_override);
+    let mut routes = routes_of(rules, rc);
+    if !routes.is_empty() {
+        let k = case.rotation % routes.len();
+        routes.rotate_left(k);
+    }
+    let mut trace = redirectionio::action::UnitTrace::default();
+    Action::from_routes_rule(routes, &req, Some(&mut trace))
+}
+
 pub fn action_for(case: &Case, rules: &[Rule], rc: &RouterConfig) -> Action {
     let req = request_for(rc, "/p", case.sampling_override);
     if case.via_router {
@@ -55,9 +67,39 @@ pub fn check_case(case: &Case, rc: &RouterConfig) -> Vec<(String, String)> {
     let (spec, rules) = build(case);
     let action = action_for(case, &rules, rc);
     let mut out = Vec::new();
+    let feature_names = |case: &Case| {
+        let mut controls: Vec<String> = case.shapes.iter().map(|s| format!("{:?}", s.control)).collect();
+        controls.sort();
+        controls.dedup();
+        let mut conds: Vec<String> = case.shapes.iter().map(|s| format!("{:?}", s.cond)).collect();
+        conds.sort();
+        conds.dedup();
+        (controls.join("+"), conds.join("+"))
+    };
+    // handing a unit trace to the builder must give the very same action
+    let traced = traced_action_for(case, &rules, rc);
+    if serde_json::to_string(&traced).ok() != serde_json::to_string(&action).ok() {
+        let (controls, conds) = feature_names(case);
+        out.push((
+            format!("action-built-with-unit-trace-differs:controls={controls}:conds={conds}"),
+            format!("rules {:?} (rank pattern {}, sampling override {:?}): from_routes_rule(.., Some(trace)) = {} / from_routes_rule(.., None) = {}", spec, case.rank_pattern, case.sampling_override, serde_json::to_string(&traced).unwrap_or_default(), serde_json::to_string(&action).unwrap_or_default()),
+        ));
+    }
     for c in CODES {
         let got = observe_action(&action, c);
         let want = reference_obs(&spec, case.sampling_override, c);
+        let (got_traced, traced_ids) = observe_action_traced(&traced, c);
+        if got_traced != want || traced_ids != want.applied {
+            let field = if got_traced != want { diff_field(&got_traced, &want) } else { "trace-rule-ids" };
+            let (controls, conds) = feature_names(case);
+            out.push((
+                format!("with-unit-trace:{field}:controls={controls}:conds={conds}"),
+                format!(
+                    "rules {:?} (rank pattern {}, sampling override {:?}, code {c}), every call given a UnitTrace: implementation {:?} trace ids {:?} / reference {:?}",
+                    spec, case.rank_pattern, case.sampling_override, got_traced, traced_ids, want
+                ),
+            ));
+        }
         if got != want {
             let field = diff_field(&got, &want);
             // name the feature combination: controls and conditions present in the list
